@@ -194,7 +194,8 @@ func genConfig(r *kit.Rng, maxLen int) kit.Case {
 		}
 	}
 	if spicy && r.Chance(8) {
-		ops = append(ops, "set AdditionalAttributes t:ClusterName=MyCluster,environment=production")
+		ops = append(ops, "set AdditionalAttributes "+[]string{"t:ClusterName=MyCluster,environment=production",
+			"t:rollout.id=12345", "t:env=a%3A%20b,cluster=true"}[r.Intn(3)])
 	}
 	for i := len(ops) - 1; i > 0; i-- { // order of the settings in the file must not matter
 		j := r.Intn(i + 1)
